@@ -1,0 +1,81 @@
+//go:build verif
+
+// Contracts for floodsub.go, randomsub.go and the announcement path of pubsub.go
+// (properties C05, C06, C19). Comment-only.
+
+package pubsub
+
+//@ spec fn attempts(pid string) int = nSentTo[pid] + nDropTo[pid]
+
+// rpcWithMessages wraps the accepted protobuf itself (same pointer): the forwarded copy is
+// field-for-field the message that was accepted, so its signature stays valid.
+//@ func rpcWithMessages
+//@   property C06
+//@   modifies nothing
+//@   ensures fresh: fresh(result)
+//@   ensures same-messages: result.RPC.Publish == msgs
+//@   ensures nothing-else: result.RPC.Control == nil && len(result.RPC.Subscriptions) == 0
+
+//@ func rpcWithSubs
+//@   property C05
+//@   modifies nothing
+//@   ensures fresh: fresh(result)
+//@   ensures same-subs: result.RPC.Subscriptions == subs
+//@   ensures nothing-else: result.RPC.Control == nil && len(result.RPC.Publish) == 0
+
+// FloodSubRouter.Publish: exactly one push attempt (traced as SEND_RPC or DROP_RPC) to every
+// peer of the topic that has an outbound queue, except the forwarder and the author; nothing
+// to anyone else; every attempt carries the RPC wrapping the accepted message.
+//@ func (*FloodSubRouter).Publish
+//@   property C06 C19
+//@   requires msg: msg != nil && msg.Message != nil
+//@   noframe
+//@   loop 1 invariant exact: forall pid string :: attempts(pid) - old(attempts(pid)) ==
+//@        ite($visited[pid] && pid != old(msg.ReceivedFrom) && pid != old(authorOf(msg)) && pid in fs.p.peers, 1, 0)
+//@   loop 1 invariant visited-in-topic: forall pid string :: $visited[pid] ==> pid in old(fs.p.topics[topicOf(msg)])
+//@   loop 1 invariant pushes-traced: calls((*rpcQueue).Push) - old(calls((*rpcQueue).Push)) ==
+//@        calls((*pubsubTracer).SendRPC) - old(calls((*pubsubTracer).SendRPC)) + calls((*pubsubTracer).DropRPC) - old(calls((*pubsubTracer).DropRPC))
+//@   loop 1 invariant same-rpc: calls((*rpcQueue).Push) > old(calls((*rpcQueue).Push)) ==> lastarg((*rpcQueue).Push, 1) == lastret(rpcWithMessages)
+//@   at call Push assert queue-of-peer: $arg0 == fs.p.peers[pid] && $arg1 == lastret(rpcWithMessages) && !$arg2
+//@   at call SendRPC assert after-success: lastret((*rpcQueue).Push) == nil && $arg1 == lastret(rpcWithMessages) && $arg2 == pid
+//@   at call DropRPC assert after-failure: lastret((*rpcQueue).Push) != nil && $arg1 == lastret(rpcWithMessages) && $arg2 == pid
+//@   ensures exact: forall pid string :: attempts(pid) - old(attempts(pid)) ==
+//@        ite(pid in old(fs.p.topics[topicOf(msg)]) && pid != old(msg.ReceivedFrom) && pid != old(authorOf(msg)) && pid in fs.p.peers, 1, 0)
+//@   ensures same-message: lastarg(rpcWithMessages, 0)[0] == old(msg.Message) && len(lastarg(rpcWithMessages, 0)) == 1
+//@   ensures pushes-traced: calls((*rpcQueue).Push) - old(calls((*rpcQueue).Push)) ==
+//@        calls((*pubsubTracer).SendRPC) - old(calls((*pubsubTracer).SendRPC)) + calls((*pubsubTracer).DropRPC) - old(calls((*pubsubTracer).DropRPC))
+
+//@ spec fn topicOf(m *Message) string = ite(m.Message != nil && m.Message.Topic != nil, deref(m.Message.Topic), "")
+
+// Trace events of joins and leaves (C19): exactly one JOIN per router Join, one LEAVE per Leave.
+//@ func (*FloodSubRouter).Join
+//@   property C19
+//@   noframe
+//@   ensures join-traced: calls((*pubsubTracer).Join) == old(calls((*pubsubTracer).Join)) + 1 && lastarg((*pubsubTracer).Join, 1) == topic
+//@ func (*FloodSubRouter).Leave
+//@   property C19
+//@   noframe
+//@   ensures leave-traced: calls((*pubsubTracer).Leave) == old(calls((*pubsubTracer).Leave)) + 1 && lastarg((*pubsubTracer).Leave, 1) == topic
+//@ func (*RandomSubRouter).Join
+//@   property C19
+//@   noframe
+//@   ensures join-traced: calls((*pubsubTracer).Join) == old(calls((*pubsubTracer).Join)) + 1 && lastarg((*pubsubTracer).Join, 1) == topic
+//@ func (*RandomSubRouter).Leave
+//@   property C19
+//@   noframe
+//@   ensures leave-traced: calls((*pubsubTracer).Leave) == old(calls((*pubsubTracer).Leave)) + 1 && lastarg((*pubsubTracer).Leave, 1) == topic
+//@   ensures no-join: calls((*pubsubTracer).Join) == old(calls((*pubsubTracer).Join))
+
+// announce: one push attempt of the single-SubOpts RPC to every peer with an outbound queue,
+// traced as SEND_RPC on success and DROP_RPC (plus a scheduled retry) on failure.
+//@ func (*PubSub).announce
+//@   property C05 C19
+//@   noframe
+//@   loop 1 invariant exact: forall pid string :: attempts(pid) - old(attempts(pid)) == ite($visited[pid], 1, 0)
+//@   loop 1 invariant visited-peers: forall pid string :: $visited[pid] ==> pid in old(p.peers)
+//@   at call Push assert announcement: $arg0 == p.peers[pid] && $arg1 == lastret(rpcWithSubs) && !$arg2
+//@   at call SendRPC assert after-success: lastret((*rpcQueue).Push) == nil && $arg1 == lastret(rpcWithSubs) && $arg2 == pid
+//@   at call DropRPC assert after-failure: lastret((*rpcQueue).Push) != nil && $arg1 == lastret(rpcWithSubs) && $arg2 == pid
+//@   ensures every-peer-once: forall pid string :: attempts(pid) - old(attempts(pid)) == ite(pid in old(p.peers), 1, 0)
+//@   ensures single-subopt: len(lastarg(rpcWithSubs, 0)) == 1 && lastarg(rpcWithSubs, 0)[0] != nil &&
+//@        deref(lastarg(rpcWithSubs, 0)[0].Topicid) == topic && deref(lastarg(rpcWithSubs, 0)[0].Subscribe) == sub
